@@ -16,7 +16,12 @@ def run(chk):
         "sleepers sleep at least the requested time (C02_total_sleep)",
         "decision callbacks (classifier, strategy, sleep handler, sleeper) do not raise ordinary exceptions; attempt_timeout_s=None",
     ]
-    rc.run_runner_check(chk, "C02", "proj_C02", OPTS)
+    ok = chk.check_theorems()
+    rc.run_runner_check(chk, "C02", "proj_C02", OPTS, theorems_ok=ok)
+    if ok:
+        import source_tie
+        source_tie.report(chk, source_tie.sleep_tie(chk), "sleep",
+                          "scripted call sequences (random, abort sentinels and sweeps): no property violation found")
 
 
 def replay(path):
